@@ -579,6 +579,8 @@ impl Client {
             .query_str(path.as_ref())
             .query_format_code(query_format);
         let msg = body_fn(builder)?.build();
+        #[cfg(feature = "verif-hooks")]
+        crate::verif::probe(&format!("cm_allocated:{id}"));
 
         let (sender, receiver) = mpsc::channel();
         {
@@ -589,11 +591,15 @@ impl Client {
                 .map_err(|_| poisoned_lock_error("client pending map"))?;
             pending.insert(id, sender);
         }
+        #[cfg(feature = "verif-hooks")]
+        crate::verif::probe(&format!("cm_registered:{id}"));
 
         if let Err(err) = self.write_request(&msg) {
             self.remove_pending(id);
             return Err(err);
         }
+        #[cfg(feature = "verif-hooks")]
+        crate::verif::probe(&format!("cm_written:{id}"));
 
         let resp = self.wait_for_response(id, receiver, timeout)?;
         Self::validate_response(id, resp)
@@ -769,6 +775,8 @@ fn spawn_response_loop(mut reader: BufReader<TcpStream>, inner: std::sync::Weak<
                     break;
                 }
             };
+            #[cfg(feature = "verif-hooks")]
+            crate::verif::probe("cm_reader_read");
 
             let dispatch = {
                 let Some(inner_ref) = inner.upgrade() else {
